@@ -23,6 +23,10 @@ CASE_TIMEOUT = 300.0
 def cfg_hook(rng, cfg, fam, i):
     if i % 2 == 0:
         cfg["cache"] = int(rng.choice([2048, 4096, 8192, 16384, 32768]))
+    if fam == "buffer-stress":
+        # weights streamed through SRAM buffers in several unequal depth slices need the Performance strategy and room for a double buffer
+        cfg["optimise"] = "Performance"
+        cfg["cache"] = [None, 16384, 32768, 65536][i % 4]
     if fam == "buffer-stress" and i % 3 != 1:
         # two cores + weights streamed through SRAM buffers: per-core ranges carry padding when a core's channel count is not a multiple of 8
         cfg["acc"], cfg["mode"] = "ethos-u65-512", None
@@ -31,7 +35,7 @@ def cfg_hook(rng, cfg, fam, i):
 
 
 def gen_cases(tier, seed):
-    fams = ["stripe-stress", "buffer-stress", "lut-stress", "alias-stress", "exact-chain", "exact-dag", "cpu-mix", "approx-tail", "exact-chain-big", "stripe-stress", "buffer-stress", "lut-stress", "stripe-resize", "shared-weights"]
+    fams = ["stripe-stress", "buffer-stress", "lut-stress", "alias-stress", "exact-chain", "exact-dag", "cpu-mix", "approx-tail", "exact-chain-big", "stripe-stress", "buffer-stress", "lut-stress", "stripe-resize", "shared-weights", "buffer-stress"]
     return campaign.gen_cases(tier, seed, 3, 420, 12000, families=fams, cfg_hook=cfg_hook)
 
 
